@@ -101,6 +101,18 @@ func Bytes(name string, n int) []byte {
 	return out
 }
 func String(name string, n int) string { return string(Bytes(name, n)) }
+
+// ASCIIString: n bytes, each in 0..127.
+func ASCIIString(name string, n int) string {
+	out := make([]byte, n)
+	for i := range out {
+		out[i] = ByteIn(fmt.Sprintf("%s[%d]", name, i), 0, 127)
+	}
+	return string(out)
+}
+
+// ASCIIBytes: n bytes, each in 0..127.
+func ASCIIBytes(name string, n int) []byte { return []byte(ASCIIString(name, n)) }
 func Choice(name string, n int) int {
 	if n <= 1 {
 		return 0
